@@ -68,10 +68,14 @@ for i in ids:
            "seed": str(seed), "tier": tier, "head": head, "secs": secs}
     if r.returncode not in (0, 1):
         rec["tail"] = r.stdout[-400:]
-    try:
-        res = json.load(open(out_path))
-    except Exception:
-        res = {}
-    res[i] = rec
-    json.dump(res, open(out_path, "w"), indent=1, sort_keys=True)
+    import fcntl
+    with open(out_path + ".lock", "w") as lk:
+        fcntl.flock(lk, fcntl.LOCK_EX)
+        try:
+            res = json.load(open(out_path))
+        except Exception:
+            res = {}
+        res[i] = rec
+        json.dump(res, open(out_path + ".tmp", "w"), indent=1, sort_keys=True)
+        os.replace(out_path + ".tmp", out_path)
     print(i, json.dumps(rec)[:300], flush=True)
